@@ -19,6 +19,7 @@ func init() {
 		rules.NilGuards(p, r)
 		rules.NilAuxiliary(p, r)
 		rules.ConstructorCompleteness(p, r)
+		rules.PeerBeforePorts(p, r, "E2-N3-pre")
 		r.Floor("E2-N1", 18)
 		r.Floor("E2-N3", 12)
 		r.Floor("E2-N7", 10)
